@@ -3,7 +3,7 @@
 REGISTRY = {
     "C01": {
         "level": "exploration",
-        "claim": 'Generated item trees over every format code, boundary counts, nesting to 64 and every constructor shape, compared byte-for-byte with an independent SEMI E5 reference encoder and round-tripped through Decode with all accessor families.',
+        "claim": 'Generated item trees over every format code, boundary counts, nesting to 64 and every constructor shape, compared byte-for-byte with an independent SEMI E5 reference encoder and round-tripped through Decode with all accessor families. Constructor arguments include nil children that carry the argument count across the 255/256 length-field boundary; AppendTo is given spare capacity holding stale non-zero bytes.',
         "trust": "Trusts the reference codec harness/ref/e5 (written from the standard) and Go's float32 conversion.",
         "technique": 'property-based testing (rapid): differential vs reference encoder + round trip',
         "tests": [
@@ -13,7 +13,7 @@ REGISTRY = {
     },
     "C02": {
         "level": "exploration",
-        "claim": 'Structured mutations of valid encodings (byte flips, truncations, length rewrites, non-canonical headers, depth 63/64/65) and hostile constants decoded by both entry points; accept/reject and value compared with an independent E5 reference decoder, re-encoding compared with the consumed prefix, allocation metered against a linear bound; coverage-guided native fuzzing in the thorough tier.',
+        "claim": 'Structured mutations of valid encodings (byte flips, truncations, length rewrites, non-canonical headers, depth 63/64/65) and hostile constants decoded by both entry points; accept/reject and value compared with an independent E5 reference decoder, re-encoding compared with the consumed prefix, allocation metered against a linear bound; coverage-guided native fuzzing in the thorough tier. Items of earlier inputs, kept by the caller (ring of 24), are re-read after every later accepted or rejected input; an enumerated family of 1-65 nested lists each claiming as many children as the remaining bytes allow (64 B - 65 kB).',
         "trust": 'Trusts harness/ref/e5.Decode as the grammar; the allocation bound (128x input + 256 KiB) is a calibrated constant.',
         "technique": 'property-based testing (rapid) + native go fuzzing: differential vs reference decoder, allocation meter',
         "tests": [
@@ -25,7 +25,7 @@ REGISTRY = {
     },
     "C03": {
         "level": "exploration",
-        "claim": "Generated (stream, function, W, session, system bytes, body) tuples through every constructor, re-stamp and derive path plus all nine control factories with every status/reason byte, compared byte for byte with independent E37/E5 reference encoders and round-tripped through the three decode entry points; on a real Selected connection (both roles) the bytes a raw peer reads for every send entry point are compared with the message's serialization.",
+        "claim": "Generated (stream, function, W, session, system bytes, body) tuples through every constructor, re-stamp and derive path plus all nine control factories with every status/reason byte, compared byte for byte with independent E37/E5 reference encoders and round-tripped through the three decode entry points; on a real Selected connection (both roles) the bytes a raw peer reads for every send entry point are compared with the message's serialization. Also: frames forwarded after re-stamping from built / wire-decoded sources, 2-5 re-stamped copies forwarded concurrently, concurrent first serialization under the race detector, every message length from 2^24-1-8 to 2^24-1+12 built and decoded, and messages with undecodable bodies through 0-3 derivation steps (self-consistency of frame, body and reported item).",
         "trust": "Trusts ref/e37 and ref/e5 (written from the standards) and the in-memory network handed to WithDialer/WithListener.",
         "technique": "property-based testing (rapid): differential vs reference encoders, round trip, wire == ToBytes on scripted connections in testing/synctest",
         "tests": [
@@ -39,7 +39,7 @@ REGISTRY = {
     },
     "C04": {
         "level": "exploration",
-        "claim": "Mutated and random byte strings through the three frame-decode entry points against an independent well-formedness predicate (incl. same body error for every holder, copy and goroutine); generated frame streams under arbitrary segmentation and inter-segment delay classes fed by a raw peer to real connections in virtual time: segmentation invariance against the responder model, idle gaps survive, a stall inside a frame drops the link exactly T8 after its last byte, an out-of-range length drops it at once without allocating the claimed size; native fuzzing of the decode entry points in the thorough tier.",
+        "claim": "Mutated and random byte strings through the three frame-decode entry points against an independent well-formedness predicate (incl. same body error for every holder, copy and goroutine); generated frame streams under arbitrary segmentation and inter-segment delay classes fed by a raw peer to real connections in virtual time: segmentation invariance against the responder model, idle gaps survive, a stall inside a frame drops the link exactly T8 after its last byte, an out-of-range length drops it at once without allocating the claimed size; native fuzzing of the decode entry points in the thorough tier. Also: every message length from 2^24-1-8 to 2^24-1+12 through the three decode entry points, and frames of cap-1 .. cap+2 bytes written to a Selected connection in both roles.",
         "trust": "Trusts ref/e37.ParseWhole and ref/fsm.Responder; virtual time (testing/synctest) makes T8 exact; the allocation meter is process-wide TotalAlloc with a 4 MiB threshold against >= 16 MiB claimed.",
         "technique": "property-based testing (rapid): acceptance-predicate differential + metamorphic segmentation invariance on scripted connections in testing/synctest; native go fuzzing (thorough)",
         "tests": [
@@ -53,7 +53,7 @@ REGISTRY = {
     },
     "C06": {
         "level": "exploration",
-        "claim": "1-12 concurrent reply-expected sends against a raw peer whose reply-side behaviour is a generated policy per transaction (permuted/delayed/duplicate/missing/late replies, rejects with every reason, SxF0 aborts, peer primaries and control responses reusing in-flight system bytes, unsolicited secondaries, link drops, caller deadlines/cancels); in virtual time every call has a single predicted outcome and instant, checked together with reply identity, T3 lower bound, never (nil,nil), a delivery ledger (each inbound data frame reaches exactly one recipient, handlers in arrival order) and pairwise distinct system bytes.",
+        "claim": "1-12 concurrent reply-expected sends against a raw peer whose reply-side behaviour is a generated policy per transaction (permuted/delayed/duplicate/missing/late replies, rejects with every reason, SxF0 aborts, peer primaries and control responses reusing in-flight system bytes, unsolicited secondaries, link drops, caller deadlines/cancels); in virtual time every call has a single predicted outcome and instant, checked together with reply identity, T3 lower bound, never (nil,nil), a delivery ledger (each inbound data frame reaches exactly one recipient, handlers in arrival order) and pairwise distinct system bytes. Also: replies and duplicates timed to coincide exactly with T3 / the caller's deadline (the racing call may end either way; later rounds must get their own replies), and T3 expiring while the fire-and-forget queue is full followed by overlapping waits with exact reply / T3 instants.",
         "trust": "Delays are drawn from a lattice on which no two causes coincide (inherent ties are not generated); the Go scheduler inside the library is sampled; peer data secondaries that reuse a library CONTROL transaction's system bytes are not generated (the statement leaves them open).",
         "technique": "property-based testing (rapid): concurrent histories in testing/synctest against a routing model + per-call ledger",
         "tests": [
@@ -65,7 +65,7 @@ REGISTRY = {
     },
     "C07": {
         "level": "exploration",
-        "claim": "Real connections (both roles) driven into each way of being not-selected (never opened, closed, connecting, connected-not-selected, deselected, between reconnect generations, select rejected); every data-sending entry point is checked for error identity, exactly one counted drop and zero data bytes at the raw peer; inbound data while not selected must be answered by Reject reason 4 echoing session id and system bytes with no handler call and the link up; data pipelined behind the establishing Select under drawn segmentations must be delivered in order.",
+        "claim": "Real connections (both roles) driven into each way of being not-selected (never opened, closed, connecting, connected-not-selected, deselected, between reconnect generations, select rejected); every data-sending entry point is checked for error identity, exactly one counted drop and zero data bytes at the raw peer; inbound data while not selected must be answered by Reject reason 4 echoing session id and system bytes with no handler call and the link up; data pipelined behind the establishing Select under drawn segmentations must be delivered in order. Also: Select+Deselect in one write as a way of being not selected, and (real time) data written by the peer while Close is stuck in its farewell write.",
         "trust": "Trusts the in-memory network and virtual-time quiescence (synctest.Wait) as the point at which 'nothing was written' is decided.",
         "technique": "property-based testing (rapid) over scripted connection histories in testing/synctest with byte-level peer observation",
         "tests": [
@@ -76,7 +76,7 @@ REGISTRY = {
     },
     "C05": {
         "level": "exploration",
-        "claim": "Rapid state machine over the real supervisor with the schedule owned by the harness (commits placed inside the supervisor's load->store window, stale T7 / stale generation events, commits after Close, undrained notifications) checked after every action against a reference E37 model plus the notification chain / no-self / final-state invariants; end-to-end peer scripts (pipelined Select+Deselect, T7, separate, drops, connect racing Close) on real connections inside a virtual-time bubble with State() read at synchronisation points.",
+        "claim": "Rapid state machine over the real supervisor with the schedule owned by the harness (commits placed inside the supervisor's load->store window, stale T7 / stale generation events, commits after Close, undrained notifications) checked after every action against a reference E37 model plus the notification chain / no-self / final-state invariants; end-to-end peer scripts (pipelined Select+Deselect, T7, separate, drops, connect racing Close) on real connections inside a virtual-time bubble with State() read at synchronisation points. Scripts include dwell steps of T7/4 and T7/2, a composite step that separates every T7 arming instant of a generation, orphan control responses, and a write of a dead generation that reports its failure only after the next generation is selected.",
         "trust": "Assumption A1 (generations are separated in real time); the Go scheduler inside the library is sampled, not enumerated; hook hsms/export_verif.go only aliases unexported code.",
         "technique": "property-based testing (rapid stateful / model-based) on a step-driven supervisor + scripted-peer histories in testing/synctest",
         "tests": [
@@ -89,7 +89,7 @@ REGISTRY = {
     },
     "C08": {
         "level": "exploration",
-        "claim": "Generated peer frame sequences (all STypes/PTypes, with/without body, arbitrary header bytes, grouped 1-4 per TCP write, both roles, equipment/host, session validation on/off, a second TCP connection) against real connections in a virtual-time bubble; every frame the library sends back is compared field by field with an executable E37 responder model, plus handler deliveries, connection survival and State() at the quiescent end.",
+        "claim": "Generated peer frame sequences (all STypes/PTypes, with/without body, arbitrary header bytes, grouped 1-4 per TCP write, both roles, equipment/host, session validation on/off, a second TCP connection) against real connections in a virtual-time bubble; every frame the library sends back is compared field by field with an executable E37 responder model, plus handler deliveries, connection survival and State() at the quiescent end. Groups may carry 1-3 frames pipelined behind a Separate.req in the same write (nothing answered, nothing delivered).",
         "trust": "Trusts ref/fsm.Responder (written from the statement) and the in-memory network; shapes E37 leaves open (refusal of the library's own Select after the peer's Select succeeded; responses to a transaction answered in the same TCP write) are not generated.",
         "technique": "property-based testing (rapid) with a model-based oracle over scripted-peer histories in testing/synctest",
         "tests": [
@@ -99,7 +99,7 @@ REGISTRY = {
     },
     "C09": {
         "level": "fault_enumeration",
-        "claim": "Send programs (sync W / no-W, async, reply, forward; unique tokens; concurrent goroutines) on 1-3 consecutive TCP generations of one open connection, each generation ended by a fault drawn from: peer close, reset, reply-then-close in one instant, stalled reader with a full async queue then reset, reset after a drawn byte count (mid-frame), T8 stall, dead linktest, Separate.req, write timeout, Close(); the raw peer records the generation of every frame and replays stale replies on the next generation. Checked: no token crosses generations, no reply completes a send of another generation, pending calls return at the instant the generation ends with the connection-closed error, queued async frames are never flushed later.",
+        "claim": "Send programs (sync W / no-W, async, reply, forward; unique tokens; concurrent goroutines) on 1-3 consecutive TCP generations of one open connection, each generation ended by a fault drawn from: peer close, reset, reply-then-close in one instant, stalled reader with a full async queue then reset, reset after a drawn byte count (mid-frame), T8 stall, dead linktest, Separate.req, write timeout, Close(); the raw peer records the generation of every frame and replays stale replies on the next generation. Checked: no token crosses generations, no reply completes a send of another generation, pending calls return at the instant the generation ends with the connection-closed error, queued async frames are never flushed later. Also: (real time) a generation ended by Close / peer close / peer reset while one write is stalled and 0-3 senders queue behind it; a connection accepted (passive) or a re-dial returned (active) only after Close, with the old peer talking into 0-2 later generations; Close at the instant a reconnect attempt is due (real-time phase jitter); generation end while the data handler is busy.",
         "trust": "The fault menu above is HSMS-SS; SECS-I generations are covered by TestC09Secs1 (a send in flight while the line dies at a drawn protocol point). While the peer's window is closed the program is restricted to one writing goroutine (testing/synctest cannot advance time while a goroutine waits on the write mutex).",
         "technique": "property-based testing (rapid): generated fault plans x send programs on scripted connections in testing/synctest, generation-window invariant over the wire history",
         "tests": [
@@ -114,7 +114,7 @@ REGISTRY = {
     },
     "C10": {
         "level": "exploration",
-        "claim": "Concurrent API programs (Open blocking/background, Close, sends, UpdateConfigOptions valid/invalid, State, Metrics) from 1-5 goroutines at drawn offsets over 1-3 open/close cycles against peers that are absent, cooperative, silent, drop or flap, on HSMS-SS and SECS-I connections in both roles, in real time with small timers; every call is bounded, Close is bounded and idempotent, after Close no goroutine runs library code, every socket/listener handed to the library is closed, no dial/listen follows, State() is NotConnected; a re-Open reaches Selected, a second Open is refused with ErrAlreadyOpen without side effects (also while a reconnect is pending, which must still complete), and a round trip works. In virtual time: Close against a peer that stopped reading (window 0-13 bytes, optionally one sender blocked in its write, write timeout default 30 s / 5 s / 300 ms) returns within close timeout + the 500 ms farewell bound, exactly.",
+        "claim": "Concurrent API programs (Open blocking/background, Close, sends, UpdateConfigOptions valid/invalid, State, Metrics) from 1-5 goroutines at drawn offsets over 1-3 open/close cycles against peers that are absent, cooperative, silent, drop or flap, on HSMS-SS and SECS-I connections in both roles, in real time with small timers; every call is bounded, Close is bounded and idempotent, after Close no goroutine runs library code, every socket/listener handed to the library is closed, no dial/listen follows, State() is NotConnected; a re-Open reaches Selected, a second Open is refused with ErrAlreadyOpen without side effects (also while a reconnect is pending, which must still complete), and a round trip works. In virtual time: Close against a peer that stopped reading (window 0-13 bytes, optionally one sender blocked in its write, write timeout default 30 s / 5 s / 300 ms) returns within close timeout + the 500 ms farewell bound, exactly. Also (virtual time): Close at the instant a reconnect attempt is due; late accept / late dial; SECS-I: 2-4 line generations (Close + re-Open or peer drop) on each of which a restarted peer repeats its first primary, re-sends an unfinished message from its first block or sends a stale continuation block. Dial/listen seams return 0-40 ms late; leak checks run with the peer still up.",
         "trust": "Real time: bounds are upper bounds with seconds of slack and leak detectors poll for 2 s; handlers return (as the statement assumes).",
         "technique": "property-based testing (rapid): generated concurrent API programs x peer behaviours with leak detectors (goroutine dump, socket registry, dial log)",
         "tests": [
@@ -128,7 +128,7 @@ REGISTRY = {
     },
     "C11": {
         "level": "fault_enumeration",
-        "claim": "Every byte offset in both directions of the connect/select/first-data/linktest exchange is cut, for both roles (enumerated exhaustively), plus generated plans over peer close, T6/T7/T8/write-timeout/linktest stalls, Select.rsp refusals 2..255, 0-8 refused dials or failed listens and drawn backoff configurations; in virtual time every gap between reconnect attempts is compared exactly with the reference backoff sequence (start at initial, never decreasing, <= T5), the link must come back Selected with a working round trip and linktest, the reconnect counter must grow by one per successful re-dial, and nothing may be dialled or listened after Close. The pure backoff step is compared with the reference over (delay, multiplier incl. NaN/Inf, T5) triples.",
+        "claim": "Every byte offset in both directions of the connect/select/first-data/linktest exchange is cut, for both roles (enumerated exhaustively), plus generated plans over peer close, T6/T7/T8/write-timeout/linktest stalls, Select.rsp refusals 2..255, 0-8 refused dials or failed listens and drawn backoff configurations; in virtual time every gap between reconnect attempts is compared exactly with the reference backoff sequence (start at initial, never decreasing, <= T5), the link must come back Selected with a working round trip and linktest, the reconnect counter must grow by one per successful re-dial, and nothing may be dialled or listened after Close. The pure backoff step is compared with the reference over (delay, multiplier incl. NaN/Inf, T5) triples. Also: refused dials before the very first connection (cold start), T5 changed at runtime in the middle of an outage, a follow-up in which the recovered session's peer falls silent and the linktest must drop it, and the SECS-I transport (line lost by peer close / reset / after ENQ / retry limit exhausted / unacknowledged block) with the same exact backoff oracle from the instant the library closed its end.",
         "trust": "Byte-offset enumeration on HSMS-SS; SECS-I recovery by fault kinds (TestC11Secs1: peer close/reset, line lost after ENQ, retry limit exhausted, unacknowledged block) with the same exact backoff oracle. Durations up to 2^53 ns in the pure part (float64-exact range). ref/fsm.Backoff is written from the WithReconnectBackoff documentation.",
         "technique": "property-based testing (rapid) + exhaustive fault-position enumeration on scripted connections in testing/synctest; model-based backoff oracle",
         "tests": [
@@ -141,7 +141,7 @@ REGISTRY = {
     },
     "C17": {
         "level": "exploration",
-        "claim": "The real message splitter and block parser are compared image by image with an independent E4 reference over generated messages (all header field values, body lengths 0..8 KiB biased to the 243/244/245, 488/489, 732/733 boundaries) and mutated block images; generated inbound block sequences over the statement's alphabet (valid next, duplicate, skipped number, changed header field, wrong device, wrong direction, block 0, T4 gap, interleaved new message) are fed with an injected clock to the REAL assembler and compared with a reference E4 section 9.4 assembler; end to end, a real secs1 connection (host/equipment x active/passive) talks to a reference character-level line peer in virtual time in both directions, incl. NAK-ed retransmissions outbound and corrupt block images inbound, with ACK/NAK per block, exact deliveries, link survival and a final probe.",
+        "claim": "The real message splitter and block parser are compared image by image with an independent E4 reference over generated messages (all header field values, body lengths 0..8 KiB biased to the 243/244/245, 488/489, 732/733 boundaries) and mutated block images; generated inbound block sequences over the statement's alphabet (valid next, duplicate, skipped number, changed header field, wrong device, wrong direction, block 0, T4 gap, interleaved new message) are fed with an injected clock to the REAL assembler and compared with a reference E4 section 9.4 assembler; end to end, a real secs1 connection (host/equipment x active/passive) talks to a reference character-level line peer in virtual time in both directions, incl. NAK-ed retransmissions outbound and corrupt block images inbound, with ACK/NAK per block, exact deliveries, link survival and a final probe. Also on the real line: T4 changed at runtime, a length character lowered so that ENQ and a ghost block image are left over, inbound blocks taken inside the host's yielded send (duplex), and 2-4 line generations with a restarted peer (freshness).",
         "trust": "Trusts ref/e4 (block layout, Split, the section 9.4 assembler as summarised in the statement, the line peer); hook secs1/export_verif.go only wraps unexported code; virtual time (testing/synctest) for T1/T2/T4.",
         "technique": "property-based testing (rapid): differential vs reference codec and assembler (hook-driven and end to end in testing/synctest)",
         "tests": [
@@ -154,7 +154,7 @@ REGISTRY = {
     },
     "C18": {
         "level": "fault_enumeration",
-        "claim": "Two real secs1 connections (equipment + host) joined by a character-level middlebox that follows the E4 grammar in both directions and applies generated fault plans (one flipped character in a block's header/body/checksum, truncated or dropped blocks, dropped ENQ/EOT/ACK/NAK, ACK replaced by NAK, EOT/ACK delayed beyond T2) while both sides send multi-block messages concurrently (contention), retry limits 0..3; a token ledger checks that every send that returned success was delivered exactly once and intact, per-direction order, no duplicate or altered delivery whatever the send returned, at most retry-limit+1 line requests per block (per contention yield for the host), bounded completion, and recovery to a working line after a failed send.",
+        "claim": "Two real secs1 connections (equipment + host) joined by a character-level middlebox that follows the E4 grammar in both directions and applies generated fault plans (one flipped character in a block's header/body/checksum, truncated or dropped blocks, dropped ENQ/EOT/ACK/NAK, ACK replaced by NAK, EOT/ACK delayed beyond T2) while both sides send multi-block messages concurrently (contention), retry limits 0..3; a token ledger checks that every send that returned success was delivered exactly once and intact, per-direction order, no duplicate or altered delivery whatever the send returned, at most retry-limit+1 line requests per block (per contention yield for the host), bounded completion, and recovery to a working line after a failed send. Faults include a lowered / raised length character; message text is plain, made of the line's control characters, or of ghost block images; the receive half is compared with the reference assembler under gaps that add up to more than T4.",
         "trust": "Real time with T1 50 ms / T2 150 ms: only content, order, counts and generous upper bounds are asserted, so scheduling jitter can add retries but not false alarms; a failing case during which this process was scheduled more than 30 ms late is discarded as inconclusive (counted). A lowered length character whose short read happens to carry a valid checksum (2^-16) is outside what E4 detects: detected by the proxy and discarded (counted). The receive half (inter-block T4 counted from the previous block, duplicates, header changes) is additionally compared with the reference assembler under an injected clock (TestC17Assembler).",
         "technique": "property-based testing (rapid): generated fault plans x concurrent send programs through an E4-aware fault-injecting proxy; exactly-once ledger oracle",
         "tests": [
@@ -165,7 +165,7 @@ REGISTRY = {
     },
     "C19": {
         "level": "exploration",
-        "claim": "Generated observation histories (probe outcome, receive stamps before/at/after the probe, in-flight counts at evaluation and re-check, thresholds 1-6, suppression on/off) folded through the library's real failure-accounting reducers exactly as the probe loop folds them and compared step by step with a reference model plus windowed history invariants; end to end, seven peer personalities against real connections in virtual time, where the number and instants of probes and the instant of the drop are compared exactly with what the suppression rules prescribe.",
+        "claim": "Generated observation histories (probe outcome, receive stamps before/at/after the probe, in-flight counts at evaluation and re-check, thresholds 1-6, suppression on/off) folded through the library's real failure-accounting reducers exactly as the probe loop folds them and compared step by step with a reference model plus windowed history invariants; end to end, seven peer personalities against real connections in virtual time, where the number and instants of probes and the instant of the drop are compared exactly with what the suppression rules prescribe. Also: personalities with a slow inline handler, with life frames the library answers, with a send started at exactly the threshold-th timeout; and dead-link detection on the generation after sends that ended in write error / reset / T3 / cancel / reject (fresh-connection schedule, exact).",
         "trust": "ref/fsm.Linktest is written from docs/guides/linktest-suppression.md; the fold replicates runLinktest's use of the two reducers (hook aliases in hsmsss/export_verif.go); end-to-end timing is exact only because time is virtual.",
         "technique": "property-based testing (rapid): model-based differential on reducer histories + scripted peer personalities in testing/synctest",
         "tests": [
@@ -177,7 +177,7 @@ REGISTRY = {
     },
     "C20": {
         "level": "exploration",
-        "claim": "Histories of 2-8 phases on one connection (bursts of concurrent reply-expected sends ending in reply / reject / T3 / cancel / late reply, fire-and-forget sends of every kind, inbound traffic, refused sends while deselected, sends racing a deselect or a drop, drops with pending senders and refused re-dials, write timeouts, close/reopen, cold open) with a quiescent point after every phase, where every counter and gauge is compared with a ledger kept by the raw peers (data frames actually received / sent while Selected) and by the harness (outcome of every call); gauges are also sampled for negativity at every call return and peer frame.",
+        "claim": "Histories of 2-8 phases on one connection (bursts of concurrent reply-expected sends ending in reply / reject / T3 / cancel / late reply, fire-and-forget sends of every kind, inbound traffic, refused sends while deselected, sends racing a deselect or a drop, drops with pending senders and refused re-dials, write timeouts, close/reopen, cold open) with a quiescent point after every phase, where every counter and gauge is compared with a ledger kept by the raw peers (data frames actually received / sent while Selected) and by the harness (outcome of every call); gauges are also sampled for negativity at every call return and peer frame. Also: header-only and empty-list bodies, W-bit forwards, session-id validation with foreign session ids, Close at the instant a reconnect backoff expires, and the SECS-I transport against the line peer's ledger.",
         "trust": "HSMS-SS only. Quiescence is synctest.Wait in virtual time. The reconnecting gauge is sampled while the harness refuses dials, not continuously.",
         "technique": "property-based testing (rapid): generated histories in testing/synctest against a conservation ledger",
         "tests": [
@@ -188,7 +188,7 @@ REGISTRY = {
     },
     "C12": {
         "level": "exploration",
-        "claim": "Items and messages of every provenance (constructed from retained caller slices incl. typed slices and a retained []Item, Decode / DecodeHSMSMessage / DecodeHSMSPayload of a caller buffer, re-stamped and derived copies) are snapshotted over every public accessor, serializer, iterator and the SML text by 8 goroutines at once (first use of all lazy paths) and again after the caller scribbles over every retained input and every slice any accessor, serializer or append helper returned (incl. spare capacity); all snapshots must be equal, the race detector must stay silent, Item() must hand one instance to every holder and copy, and a counting Item wrapper must be serialized at most once per message.",
+        "claim": "Items and messages of every provenance (constructed from retained caller slices incl. typed slices and a retained []Item, Decode / DecodeHSMSMessage / DecodeHSMSPayload of a caller buffer, re-stamped and derived copies) are snapshotted over every public accessor, serializer, iterator and the SML text by 8 goroutines at once (first use of all lazy paths) and again after the caller scribbles over every retained input and every slice any accessor, serializer or append helper returned (incl. spare capacity); all snapshots must be equal, the race detector must stay silent, Item() must hand one instance to every holder and copy, and a counting Item wrapper must be serialized at most once per message. Also: DataMessageCodec.UnmarshalBinary as a decode entry point, kept items re-read after later accepted and rejected decodes, and (virtual time, both transports) messages delivered by a connection kept past the handler and re-read after later, equal-or-smaller messages.",
         "trust": "Binary built with -race (a report fails the run); DecodeOwned / DecodeOwnedHSMSPayload transfer ownership and are deliberately not scribbled (documented contract).",
         "technique": "property-based testing (rapid) under the race detector: observation-snapshot metamorphic check over caller-side mutations",
         "tests": [
@@ -199,7 +199,7 @@ REGISTRY = {
     },
     "C13": {
         "level": "exploration",
-        "claim": 'Generated messages over the stated item grammar x all encoder options round-tripped through the strict encoder and strict parser; parser-accepted texts produced by a grammar-directed text generator re-encoded and re-parsed.',
+        "claim": 'Generated messages over the stated item grammar x all encoder options round-tripped through the strict encoder and strict parser; parser-accepted texts produced by a grammar-directed text generator re-encoded and re-parsed. Long-lived encoders (one per option combination) and a long-lived strict parser must agree with fresh ones on every message of the process; F4 arguments sit next to float32 midpoints.',
         "trust": 'Trusts secs2.Equal-independent comparison through harness/ref/e5 values read back by obs.',
         "technique": 'property-based testing (rapid): round trip both directions',
         "tests": [
@@ -210,7 +210,7 @@ REGISTRY = {
     },
     "C15": {
         "level": "exploration",
-        "claim": 'Generated item trees (all types, EmptyItem children, extreme numerics) rendered by both renderers and compared byte for byte; numeric/boolean/binary leaves read back by the library parser and compared with the reference values.',
+        "claim": 'Generated item trees (all types, EmptyItem children, extreme numerics) rendered by both renderers and compared byte for byte; numeric/boolean/binary leaves read back by the library parser and compared with the reference values. Rendering histories: sub-lists rendered on their own before / after the tree, the same object at three depths, a fresh object of the same value, other renderers of the package run first.',
         "trust": "The differential is between the library's two renderers (that agreement IS the property); read-back trusts harness/ref/e5 values.",
         "technique": 'property-based testing (rapid): differential between renderers + parse read-back',
         "tests": [{"name": "TestC15Renderers", "shards": 8, "shards_thorough": 16}],
@@ -218,7 +218,7 @@ REGISTRY = {
     },
     "C16": {
         "level": "exploration",
-        "claim": "Generated constructor argument lists over all Go scalar/slice/string/other types, all byte sizes and values at/beyond each width's bounds, compared with a table-driven model of the documented clamp/refuse contract; errored items (direct and nested) checked against Equal, message constructors and builders.",
+        "claim": "Generated constructor argument lists over all Go scalar/slice/string/other types, all byte sizes and values at/beyond each width's bounds, compared with a table-driven model of the documented clamp/refuse contract; errored items (direct and nested) checked against Equal, message constructors and builders. Also: several Builds on one builder holding an errored item; no F4 accessor hands out a finite value beyond the bound; and (virtual time) errored items offered to every send entry point of a Selected connection incl. the handler endpoint: an error, and not one byte at the peer.",
         "trust": 'Trusts the contract model in props/c16_test.go (written from the constructor docs).',
         "technique": 'property-based testing (rapid): model-based oracle',
         "tests": [
@@ -229,7 +229,7 @@ REGISTRY = {
     },
     "C14": {
         "level": "exploration",
-        "claim": 'Grammar-directed mutations of valid SML and random strings through every parse entry point in both modes (no panic, valid-or-error, independently recomputed error positions); parametric resource shapes (nesting to 4M, 2^31-1 size hints, long tokens) parsed in a child process under an address-space limit; concurrent parser/encoder pairs under the race detector.',
+        "claim": 'Grammar-directed mutations of valid SML and random strings through every parse entry point in both modes (no panic, valid-or-error, independently recomputed error positions); parametric resource shapes (nesting to 4M, 2^31-1 size hints, long tokens) parsed in a child process under an address-space limit; concurrent parser/encoder pairs under the race detector. A long-lived parser per mode and the package-level shortcuts must agree with a fresh parser on every input of the process; resource shapes include size hints at 2^31..2^64 and deep nests preceded by 60 or by as many scalar siblings as nesting levels.',
         "trust": 'Crash containment relies on the child-process exit status; time bound is a generous budget (30 s for <= 1 MiB).',
         "technique": 'property-based testing (rapid) + resource-shape families in a sandboxed child + native go fuzzing (thorough)',
         "tests": [
